@@ -413,7 +413,9 @@ class _AsyncCallable:
 
 def _not_coroutine_function(k):
     """Callables that are NOT coroutine functions (C09)."""
-    k = k % 7
+    k = k % 8
+    if k == 7:
+        return functools.partial(len, "xy")   # a partial of a plain function: not a coroutine function, and no __name__
     if k == 6:
         async def real2(*a, **k):
             return None
@@ -709,6 +711,19 @@ class Sim:
             meth.__qualname__ = "Owner." + fname
             self.stats["probe:bound_method_worker"] += 1
             return getattr(type("Owner", (), {fname: meth})(), fname)
+
+        if fk == "part":
+            # a functools.partial of a (marked) coroutine function: passes the coroutine-function check, has no __name__
+            def bound_factory(_bound, *args, **kwargs):
+                inv = sim._on_call(owner, args, kwargs, False)
+                coro = sim._body(inv)
+                inv.coro = coro
+                return coro
+            bound_factory.__name__ = fname
+            bound_factory.__qualname__ = fname
+            inspect.markcoroutinefunction(bound_factory)
+            self.stats["probe:partial_worker_without_name"] += 1
+            return functools.partial(bound_factory, "bound")
 
         def factory(*args, **kwargs):
             inv = sim._on_call(owner, args, kwargs, False)
@@ -1616,7 +1631,8 @@ class Sim:
                     pc.rejected_starts = 0
             else:
                 m = _GEN_NAME_RE.match(ret)
-                okname = bool(m) and m.group(1) == kind and m.group(2) == func.__name__
+                # ({name} is func's name; a callable without __name__ - a functools.partial - only has to fit the pattern)
+                okname = bool(m) and m.group(1) == kind and m.group(2) == getattr(func, "__name__", m.group(2))
             if not okname:
                 self.violate("C10", "name_pattern", f"{kind} generated group name {ret!r}")
             if ret in live_before:
@@ -2455,7 +2471,7 @@ class Sim:
                     good = [i for i, b in enumerate(r.spec["elems"]) if b != 1]
                     if r.pulls != len(r.elems) or not r.exhausted:
                         self.violate_progress(pc, "C05", "not_exhausted", f"r{r.label} {r.kind}: {r.pulls}/{len(r.elems)} elements pulled")
-                    if r.spec.get("fk", "sync") in ("sync", "abc"):
+                    if r.spec.get("fk", "sync") in ("sync", "abc", "part"):
                         if r.called_els != good:
                             self.violate_progress(pc, "C05", "elements_called", f"r{r.label}: func called for elements {r.called_els}, expected {good}")
                         nfail = sum(1 for c in r.calls if c.state == "failed")
